@@ -227,8 +227,15 @@ fn stmt_effective_class(
         if !summary.available {
             return ExprClass::Impure;
         }
+        // Assigning a variable of an enclosing function is an effect the caller can
+        // observe, whatever the class of the expressions the callee evaluates.
+        if !summary.transitive_capture_writes.is_empty() {
+            return ExprClass::Impure;
+        }
 
-        class.join(summary.transitive_class)
+        // A call may also never come back (endless loop, runaway recursion), so a
+        // statement that calls user code is never classed as trap-free.
+        class.join(summary.transitive_class).join(ExprClass::PureMayTrap)
     })
 }
 
